@@ -108,7 +108,8 @@ class Run(object):
             rc = 2
             for e in self.errors:
                 lines.append('ANALYSIS-ERROR property=%s %s' % (self.pid, e))
-        if fresh and rc == 0:
+        if fresh:
+            # a violation found by one rule stands even if another rule met an idiom it does not know (the ANALYSIS-ERROR lines are still printed)
             rc = 1
         if fresh:
             os.makedirs(REPLAY, exist_ok=True)
